@@ -1020,6 +1020,32 @@ func main() {
 	logging.SetLogger(lg)
 	nbio.VerifSetPoint(hook)
 
+	if r.Phase == "http" {
+		if r.Replay != "" {
+			var c httpCase
+			if err := r.ReplayCase(&c); err != nil {
+				fmt.Println("replay:", err)
+				return
+			}
+			for i := 0; i < 5 && r.Violations() == 0; i++ {
+				runHTTPCase(r, c)
+			}
+			return
+		}
+		n := r.N(216, 4320)
+		for i := 0; i < n; i++ {
+			if !r.Mine(i) {
+				continue
+			}
+			c := genHTTPCase(r, i)
+			r.Begin(c)
+			runHTTPCase(r, c)
+			if i < 2 {
+				r.Sample(c)
+			}
+		}
+		return
+	}
 	if r.Replay != "" {
 		var c caseT
 		if err := r.ReplayCase(&c); err != nil {
